@@ -75,15 +75,17 @@ def mk_learner(kind, param):
         return lambda: adaptive.IntegratorLearner(lambda x: x, bounds=(-1.0, 1.0), tol=1e-8)
     if kind == "lnd":
         return lambda: adaptive.LearnerND(lambda p: p[0], bounds=[(-1.0, 1.0), (-1.0, 1.0)])
+    if kind == "l2d":
+        return lambda: adaptive.Learner2D(lambda p: 40.0 * p[0] + 7.0 * p[1] * p[1], bounds=[(-1.0, 1.0), (-1.0, 1.0)])
     raise ValueError(kind)
 
 
 def gen_cfg(rng, faults, thorough=False):
-    kind = rng.choice(["stub", "stub", "seq", "l1d", "l1d", "integ", "lnd"])
+    kind = rng.choice(["stub", "stub", "seq", "l1d", "l1d", "integ", "lnd", "l2d"])
     ntasks = rng.choice([1, 1, 2, 2, 3, 4, 5, 8] if thorough else [1, 2, 2, 3, 4])
     target = rng.randint(0, 12)
     maxiter = rng.randint(1, 14)
-    param = {"stub": rng.choice([0, 0, 2, 3]), "seq": rng.randint(0, 10), "l1d": 0, "integ": 0, "lnd": 0}[kind]
+    param = {"stub": rng.choice([0, 0, 2, 3]), "seq": rng.randint(0, 10), "l1d": 0, "integ": 0, "lnd": 0, "l2d": 0}[kind]
     if kind == "integ":
         ntasks = rng.choice([ntasks, 8, 12, 20])             # many values in flight: intervals are split before their values arrive
         target = rng.choice([target, rng.randint(20, 70), rng.randint(60, 160)])   # far enough for intervals to be split while values are in flight
@@ -100,7 +102,9 @@ def gen_cfg(rng, faults, thorough=False):
         "seed": rng.randrange(1 << 30),
     }
     cfg["double_cancel"] = bool(cfg["cancel_at"] is not None and rng.random() < 0.35)
-    cfg["goal_api"] = rng.choice(["callable", "npoints", "loss"]) if kind in ("stub", "l1d") else "callable"
+    cfg["goal_api"] = rng.choice(["callable", "npoints", "loss"]) if kind in ("stub", "l1d", "l2d") else "callable"
+    if kind == "l2d":   # (the goal of a Learner2D run usually looks at the loss; far enough for the corners to be done)
+        cfg["target"], cfg["maxiter"] = max(cfg["target"], rng.randint(8, 20)), max(cfg["maxiter"], rng.randint(8, 25))
     cfg["loss_goal"] = rng.choice([0.5, 0.25, 0.15, 0.08])
     return cfg
 
@@ -429,11 +433,19 @@ def small_cfgs(max_ntasks, max_waits, faults):
                        "script": {"choice": list(choice), "outs": list(outs)}}
 
 
-def run_check(ctx, modules, oracles, faults, explanation, extra_trusted=(), partial=(), real_async=False):
+def run_check(ctx, modules, oracles, faults, explanation, extra_trusted=(), partial=(), real_async=False, real_time=False):
     """shared body of C05 / C06 / C19"""
     proof = core.prove(modules, leanchecker=ctx.thorough)
     corr = core.Corr("BlockingRunner/AsyncRunner~Runner.lean")
     failures, cases, nontrivial = [], [], set()
+    if real_time:
+        # goals built from time exist only on a real clock: a few short real runs (what is checked does not depend on timing)
+        from harness import runner_real_time as rt
+        for o in core.pmap(rt.scenario, rt.gen(ctx.rng, ctx.n(8, 48))):
+            corr.count("real_clock_runs")
+            if o["fail"]:
+                failures.append({"clause": o["fail"][0], "signature": f"{ctx.prop_id}.{o['fail'][0]}:time_goal", "detail": o["fail"][1],
+                                 "replay": {"real_time": o["cfg"]}})
     if real_async:
         # AsyncRunner + coroutine function on a real event loop: nothing the runner started may still be running when it stops
         from harness import runner_real_async as ra
@@ -518,6 +530,11 @@ def replay(ctx, path, oracles):
     import json
     d = json.load(open(path))
     cfg = d.get("replay", d)
+    if "real_time" in cfg:
+        from harness import runner_real_time as rt
+        o = rt.scenario(cfg["real_time"])
+        print(o)
+        return 1 if o["fail"] else 0
     if "real_async" in cfg:
         from harness import runner_real_async as ra
         o = ra.scenario(cfg["real_async"])
